@@ -274,6 +274,7 @@ class Interp:
         self.pc = []
         self.pending = []       # alternative prefixes discovered on this run
         self.steps = 0
+        self.path_syms = []      # fresh symbols created on this run, in order of creation
         self.nfresh = getattr(self, "nfresh", 0)
 
     def clock_read(self):
@@ -289,6 +290,7 @@ class Interp:
     def fresh(self, hint, sort):
         self.nfresh += 1
         n = "hx_%s_%d" % (hint, self.nfresh)
+        self.path_syms.append(n)
         self.solver.declare(n, sort)
         return n
 
